@@ -104,6 +104,7 @@ class FragCheck:
             v["stratum"] = stratum
             if self.classify:
                 try:
+                    self._reeval_features = case.features
                     v["mechanism"] = self.classify(v, case, self.reeval)
                 except Exception:
                     v["mechanism"] = None
@@ -117,10 +118,14 @@ class FragCheck:
     def reeval(self, prog, version, exec_slim):
         """Re-run tealer and the check on `prog` for one given input; returns {(kind, ckey)} of violations."""
         rng = random.Random(0)
-        case = frag.build(prog, version, rng, want_execs=True,
-                          forced_inputs=[(exec_slim["group"], exec_slim["own"])])
-        if not case.execs:
-            return None  # the rewrite did not preserve acceptance of the witness: not a valid counterfactual
+        if exec_slim is None:
+            case = frag.build(prog, version, rng, want_execs=False)
+            case.features = list(getattr(self, "_reeval_features", []))
+        else:
+            case = frag.build(prog, version, rng, want_execs=True,
+                              forced_inputs=[(exec_slim["group"], exec_slim["own"])])
+            if not case.execs:
+                return None  # the rewrite did not preserve acceptance of the witness: not a valid counterfactual
         viols, _ = self.evaluate(case, frag.Ctr(), rng)
         return set((v["kind"], v.get("ckey")) for v in viols)
 
